@@ -15,6 +15,7 @@ func init() {
 		Explanation: "(1) FetchesRecordIter.prepareNext advances fetch -> topic -> partition -> record with exactly the four skip tests `len(fetches) == 0`, `ti >= len(Topics)`, `pi >= len(Partitions)`, `ri >= len(Records)` (no other condition may skip a partition), resetting the lower indices; Next returns Records[ri] of the current position, increments ri and re-prepares; " +
 			"(2) EachPartition, EachError, Err and Empty walk fetches -> Topics -> Partitions with three nested unfiltered range loops (no continue/break and no condition other than the leaf test), EachPartition passes every partition with its topic name; " +
 			"(3) builds-on: EachRecord and RecordsAll consume RecordIter (Done/Next), Records appends p.Records of every EachPartition visit and NumRecords sums their lengths, Errors collects EachError, Empty returns false exactly on a partition with len(Records) > 0; " +
+			"(3b) no builds-on accessor leaves early on a partial view: a guard in front of the traversal may only consult a whole-traversal sibling of the same kind (Err() == nil for errors; Empty()/NumRecords() == 0 for records; len(fs) == 0), never Err0 (first partition only) or an index into fs; an unrecognised guard is undecided; " +
 			"(4) EachTopic: with one fetch every topic is passed through; otherwise every topic entry's partitions are appended to its name's group unconditionally and the topic ID kept is any non-zero one (stored exactly under TopicID != zero), then each group is reported once with its ID.",
 		NotDecided: "equality of the results on all fetch shapes (value level).",
 		Run:        runC38,
@@ -204,6 +205,7 @@ func runC38(c *Ctx) {
 	if s, f := bodyStr("kgo.Fetches.Errors"); f != nil {
 		c.Check(strings.Contains(s, "fs.EachError(func(tstring,pint32,errerror){errs=append(errs,FetchError{t,p,err})})") && strings.HasSuffix(s, "returnerrs}"), rule3, f.Key, f.Pos(), m, "collects EachError", "Errors does not collect every EachError visit")
 	}
+	c38shortcuts(c, m)
 	// (4) EachTopic
 	if f := c.NeedFunc(m, "kgo.Fetches.EachTopic"); f != nil {
 		rule4 := "each-topic-merge"
@@ -266,4 +268,61 @@ func runC38(c *Ctx) {
 // nows removes all whitespace.
 func nows(s string) string {
 	return strings.Join(strings.Fields(s), "")
+}
+
+// c38shortcuts: the collecting accessors may return early only on a guard
+// that itself looks at every partition. Err0 inspects fs[0].Topics[0].Partitions[0]
+// only, so `if fs.Err0() == nil { return nil }` in Errors() hides every error
+// that is not on the very first partition.
+func c38shortcuts(c *Ctx, m *Module) {
+	rule := "accessor-no-partial-shortcut"
+	complete := map[string]map[string]bool{
+		"errors":  {"fs.Err()==nil": true, "len(fs)==0": true, "fs.Err()!=nil": true, "len(fs)>0": true, "len(fs)!=0": true},
+		"records": {"fs.Empty()": true, "!fs.Empty()": true, "fs.NumRecords()==0": true, "fs.NumRecords()>0": true, "fs.NumRecords()!=0": true, "len(fs)==0": true, "len(fs)>0": true, "len(fs)!=0": true},
+	}
+	kinds := map[string]string{
+		"kgo.Fetches.Errors": "errors", "kgo.Fetches.EachError": "errors", "kgo.Fetches.Err": "errors",
+		"kgo.Fetches.Records": "records", "kgo.Fetches.NumRecords": "records", "kgo.Fetches.EachRecord": "records", "kgo.Fetches.RecordsAll": "records", "kgo.Fetches.EachPartition": "records", "kgo.Fetches.Empty": "records",
+	}
+	n := 0
+	for key, kind := range kinds {
+		f := c.NeedFunc(m, key)
+		if f == nil {
+			continue
+		}
+		n++
+		bad, unk := "", ""
+		var walk func(list []ast.Stmt)
+		walk = func(list []ast.Stmt) {
+			for _, st := range list {
+				ifs, ok := st.(*ast.IfStmt)
+				if !ok {
+					continue
+				}
+				// only guards that leave the accessor matter
+				leaves := containsNode(ifs.Body, false, func(y ast.Node) bool { _, isR := y.(*ast.ReturnStmt); return isR })
+				if !leaves {
+					continue
+				}
+				cond := nosp(exprStr(ifs.Cond))
+				switch {
+				case complete[kind][cond]:
+				case strings.Contains(cond, "Err0()") || strings.Contains(cond, "fs[") || (kind == "errors" && (strings.Contains(cond, "Empty()") || strings.Contains(cond, "NumRecords()"))) || (kind == "records" && strings.Contains(cond, "Err()")):
+					bad = exprStr(ifs.Cond)
+				default:
+					unk = exprStr(ifs.Cond)
+				}
+			}
+		}
+		walk(f.Decl.Body.List)
+		switch {
+		case bad != "":
+			c.Fail(rule, key+"#early-return", f.Pos(), m, "the accessor returns early on `"+bad+"`, which does not look at every partition of every fetch (Err0 is the first partition of the first topic of the first fetch only): partitions the sibling accessors report are left out")
+		case unk != "":
+			c.Undecided(rule, key+"#early-return", f.Pos(), m, "unrecognised early-return guard `"+unk+"`")
+		default:
+			c.OK(rule, key+"#early-return", f.Pos(), m, "no early return on a partial view")
+		}
+	}
+	c.Floor(rule+"/accessors", n, 9)
 }
